@@ -69,7 +69,13 @@
 (* the tags as literal markers, runs the real build.augmentOverlayFile /   *)
 (* augmentOriginalImports / augmentOriginalFile on the parsed files,       *)
 (* extracts the same item set from the resulting ASTs and compares; when   *)
-(* TypeChecks(o, v) holds the result must also pass go/types.              *)
+(* TypeChecks(o, v) holds the result must also pass go/types.  The         *)
+(* signature tag stands for the whole signature text of the declaration it *)
+(* names (receiver, type parameters incl. an imported constraint,          *)
+(* parameters and results incl. imported types), so a replaced signature   *)
+(* is compared field by field.  Pairs in the unspecified case              *)
+(* SigImportsOpen (record field "open") are compared without the imports   *)
+(* of the original file and without the type check.                        *)
 (* OverlayScen.tla enumerates the pairs and checks the theorems at the     *)
 (* bottom of this module on every enumerated pair.                         *)
 (***************************************************************************)
@@ -435,11 +441,18 @@ OnlyInputs(o, v, M) ==
 \* T7: unless the pair is in the unspecified case, every use has its import (a consistent pair yields
 \* a package without "undefined: p" / "imported and not used")
 ImportsExact(o, w) ==
-  /\ NoUnusedImport(1, o, w) /\ NoUnusedImport(2, w, w)
-  /\ NoMissingImport(2, w, w)
-  /\ (~SigImportsOpen(o, w) => NoMissingImport(1, o, w))
-  \* the imports after the merge are among the imports written (up to unsafe/embed turning blank)
-  /\ \A c \in ImportsAfter(1, o, w) : c \in ImportsBefore(1, o, w) \/ (c = "us_" /\ "us" \in ImportsBefore(1, o, w)) \/ (c = "em_" /\ "em" \in ImportsBefore(1, o, w))
+  LET A1 == ImportsAfter(1, o, w)  U1 == UsesIn(1, o, w, TRUE)  B1 == ImportsBefore(1, o, w)
+      A2 == ImportsAfter(2, w, w)  U2 == UsesIn(2, w, w, TRUE)
+      Excused == {"bl", "dot", "us_", "em_"}
+  IN /\ \A c \in A1 : c \in Excused \/ c \in U1                 \* NoUnusedImport(1, o, w)
+     /\ \A c \in A2 : c \in Excused \/ c \in U2                 \* NoUnusedImport(2, w, w)
+     /\ U2 \subseteq A2                                          \* NoMissingImport(2, w, w)
+     /\ (~SigImportsOpen(o, w) => U1 \subseteq A1)               \* NoMissingImport(1, o, w)
+     \* the imports after the merge are among the imports written (up to unsafe/embed turning blank):
+     \* nothing is ever added to a file
+     /\ \A c \in A1 : c \in B1 \/ (c = "us_" /\ "us" \in B1) \/ (c = "em_" /\ "em" \in B1)
+     \* the LET form above is the definition below, unfolded once per pair
+     /\ (NoUnusedImport(1, o, w) <=> \A c \in A1 : c \in Excused \/ c \in U1)
 
 Theorems(o, v, ip) ==
   LET w == Ov(v) M == MergedW(o, w, ip) IN
